@@ -350,16 +350,7 @@ func (m *Machine) Step() (d *Diff, done bool) {
 			return &Diff{Class: "report memload-missing", What: fmt.Sprintf("%s at %#x reads memory [%#x,+%d) but the step report lacks it", name, pc, k[0], k[1])}, false
 		}
 	}
-	// reference step
-	m.Ref.Step(word, name)
-	// self-modification: outside the property's domain
-	for a := range m.Ref.Stores {
-		if _, ok := m.image[a]; ok {
-			m.SelfMod = true
-			return nil, true
-		}
-	}
-	// report: stores
+	// effects' write sets, with store addresses evaluated in the PRE-state
 	wantRegs := map[expr.Key]bool{}
 	wantMem := map[[2]uint64]bool{}
 	for _, ef := range ins.Effects() {
@@ -371,6 +362,16 @@ func (m *Machine) Step() (d *Diff, done bool) {
 			wantMem[[2]uint64{a.Uint64(), uint64(x.Width())}] = true
 		}
 	}
+	// reference step
+	m.Ref.Step(word, name)
+	// self-modification: outside the property's domain
+	for a := range m.Ref.Stores {
+		if _, ok := m.image[a]; ok {
+			m.SelfMod = true
+			return nil, true
+		}
+	}
+	// report: stores
 	for k := range wantRegs {
 		c, ok := st.RegStores[k]
 		if !ok {
